@@ -72,21 +72,27 @@ def execute(w, ins):
     dyn_before = []
     for g_ in w.mgrs:
         try:
-            dyn_before.append(bool(g_.api.configure().get('reordering')))
+            dyn_before.append((g_.raw, bool(g_.api.configure().get('reordering'))))
         except Exception:
-            dyn_before.append(False)
+            dyn_before.append((g_.raw, False))
     r = fn(w, ins)
     w.last_call = None
     w.touch()   # temporaries of the executor are gone now: observe afresh
     st, cn, dn = step_tags(w, ins, owner)
     w.check_invariants(st, cn, dn)
     w.check_quiet(cn)
+    for g_ in w.mgrs:
+        # between calls nobody is inside the retry wrapper: a flag left set
+        # makes the next request for reordering escape to the caller
+        if getattr(g_.raw, '_reordering_context', False) is True:
+            w.fail('context_stuck', f'M{g_.idx} still claims to be inside a reordering context after {ins["op"]} returned',
+                   ['C09'] + (['C17'] if w.cur_info.get('raised') else []))
     if ins['op'] not in ('configure', 'copy_vars', 'fork', 'manager_roundtrip') \
             and not (ins['op'] == 'load' and ins.get('target') == 2):
         # whichever manager had reordering enabled still has (a replaced
         # manager is a new object and is not compared)
-        for g_, was in zip(w.mgrs, dyn_before):
-            if not was:
+        for g_, (obj, was) in zip(w.mgrs, dyn_before):
+            if not was or g_.raw is not obj:
                 continue
             try:
                 still = bool(g_.api.configure().get('reordering'))
@@ -134,6 +140,7 @@ def epilogue(w):
     auto = w.flavor == 'autoref'
     props = ['C08'] if auto else ['C06']
     # release all handles
+    w.copy_caches.clear()
     while w.slots:
         s = w.slots.pop()
         g = w.mgrs[s.m]
@@ -234,8 +241,11 @@ def run(prop, cfg, seed, trace=None, max_steps=None):
                 except Exception:
                     pass
         w.slots = []
+        w.copy_caches = {}
         w.close()
         w.mgrs = []
+        # the parser singleton of dd keeps the manager of a parse that raised
+        seams.reset_parser_singleton()
         gc.collect()          # nothing of this run survives into the next
         seams.QUIET.drain()
     h = hashlib.sha256()
